@@ -1,5 +1,6 @@
 import Capella.Lemmas.Svg
 import Capella.Lemmas.SvgDefsUnique
+import Capella.Lemmas.SvgRows
 import Capella.Lemmas.Wrap
 import Capella.Lemmas.WrapChars
 import Capella.Lemmas.SvgText
@@ -168,6 +169,36 @@ theorem C18_use_rejection_partial (T : Tables) (o : Obj) (p : Prep) (h : useReje
   simp only [Bool.and_eq_true, decide_eq_true_eq, List.any_eq_true, Bool.or_eq_true] at h
   exact ⟨h.1.1, h.2⟩
 
+
+
+/-- the generated tables satisfy the per-entry conditions of `unstyled_draws` (kernel-checked, chunk by chunk):
+markers occur only on `Edge.*` entries and name a factory, no marker under a `text_` key, every `Edge.*` stroke is a
+colour and `__GLOBAL__`/`Edge` has one, no symbol dependency walk loops, the `Error` symbol exists -/
+theorem tables_plain : PlainTables tables :=
+  ⟨fun e he => (List.all_eq_true.mp styles_plain) e he, global_edge_stroke, symbols_terminate, error_symbol_present⟩
+
+/-- **Every element without style overrides draws — for EVERY diagram class and EVERY style class**, in the style
+tables or not, any kind, with any labels, floating labels, features, children: `draw_object` succeeds, or it is
+the one known rejection (`ValueError: Invalid attribute 'rx' for svg-element <use>`): a `symbol`-kind element whose
+resolved style carries `rx`/`ry`. (Lifts what the exhaustive run established row by row to a theorem.) -/
+theorem every_unstyled_element_draws (dc : Option (List Char)) (o : Obj) (ho : o.style = []) :
+    (∃ d, drawObject tables dc o = .ok d) ∨
+    (drawObject tables dc o = .error .invalidAttribute ∧ o.kind = .symbol ∧
+      ∃ D, getStyle styleEntries dc (styleType o.kind ++ '.' :: o.cls) = .ok D ∧
+        ∃ a ∈ (prepare tables dc o D).objStyle.attrs, a.1 = rxKey ∨ a.1 = ryKey) := by
+  rcases unstyled_draws tables_plain dc o ho with h | ⟨he, D, hD, hu⟩
+  · exact .inl h
+  · obtain ⟨hk, ha⟩ := C18_use_rejection_partial tables o _ hu
+    exact .inr ⟨he, hk, D, hD, ha⟩
+
+/-- the exact rows of the style table that can make that happen: the only entries with `rx`/`ry` -/
+theorem rx_ry_rows :
+    (styleEntries.filter fun e => e.props.any fun p => p.1 = rxKey || p.1 = ryKey).map (fun e => (e.dc, e.oc)) =
+      [("Class Diagram Blank".toList, "Box.Class".toList),
+       ("Logical Data Flow Blank".toList, "Box.LogicalFunction".toList),
+       ("Operational Activity Interaction Blank".toList, "Box.OperationalActivity".toList),
+       ("Physical Architecture Blank".toList, "Box.PhysicalBehaviorComponent".toList),
+       ("System Data Flow Blank".toList, "Box.SystemFunction".toList)] := by decide +kernel
 
 /-! ### the `<defs>` section as a state: closure through every shortcut, nothing deployed twice
 
@@ -622,5 +653,10 @@ example : renderLabel (· = ' ') (fun s => (s.length : Rat)) (fun _ => 1) ["ab".
 -- markup in a label is escaped and read back as text
 example : escText "a<b>&amp;]]>".toList = "a&lt;b&gt;&amp;amp;]]&gt;".toList ∧
     unesc "a&lt;b&gt;&amp;amp;]]&gt;".toList = some "a<b>&amp;]]>".toList := by decide +kernel
+
+-- an unknown style class in an unknown diagram class, with label and features: draws (Error fallback icon)
+example : (drawObject tables (some "No Such Diagram".toList)
+    { plainObj .symbol "NoSuchClass".toList with nFloating := 2 }).map (fun d => d.defs)
+    = .ok ["NoSuchClassSymbol".toList] := by decide +kernel
 
 end Capella.Props.C18
